@@ -4,9 +4,9 @@ From Coq Require Import List NArith ZArith Bool Lia.
 Import ListNotations.
 Open Scope N_scope.
 
-Definition chunk_state (q : pst) : Prop :=
+Definition chunk_state (cl : bool) (q : pst) : Prop :=
   st q = SChunkSizeBefore /\ proto q = [] /\ hkey q = [] /\ hval q = [] /\ trailer q = [] /\
-  hexists q = false /\ is_client q = false.
+  hexists q = false /\ is_client q = cl /\ status q = [].
 
 Lemma hex_not_sp_cr c : is_hex c = true -> c <> SP /\ c <> CR.
 Proof. intros H. split; intros ->; vm_compute in H; discriminate. Qed.
@@ -54,12 +54,12 @@ Proof.
   rewrite !app_nil_r. reflexivity.
 Qed.
 
-Lemma run_chunk q d rest acc :
-  chunk_state q -> wf_chunk d ->
-  exists q', chunk_state q' /\
+Lemma run_chunk cl q d rest acc :
+  chunk_state cl q -> wf_chunk d ->
+  exists q', chunk_state cl q' /\
     run_bytes q (render_chunk d ++ rest) acc = run_bytes q' rest (acc ++ [EBody d]).
 Proof.
-  intros (Hs & C1 & C2 & C3 & C4 & C5 & C6) (Hne & Hn). unfold render_chunk.
+  intros (Hs & C1 & C2 & C3 & C4 & C5 & C6 & C7) (Hne & Hn). unfold render_chunk.
   repeat (rewrite <- app_assoc; cbn [app]).
   rewrite (run_size_line q _ _ acc Hs Hn).
   set (q1 := set_st SChunkSizeLF _).
@@ -80,15 +80,15 @@ Proof.
   unfold chunk_state, q3, q2, q1; cbn. repeat split; assumption.
 Qed.
 
-Lemma run_chunks cs : forall q rest acc,
-  chunk_state q -> Forall wf_chunk cs ->
-  exists q', chunk_state q' /\
+Lemma run_chunks cl cs : forall q rest acc,
+  chunk_state cl q -> Forall wf_chunk cs ->
+  exists q', chunk_state cl q' /\
     run_bytes q (concat (map render_chunk cs) ++ rest) acc = run_bytes q' rest (acc ++ map EBody cs).
 Proof.
   induction cs as [|d cs IH]; intros q rest acc Hq Hw; cbn [map concat].
   - exists q. split; auto. now rewrite app_nil_r.
   - inversion Hw as [|? ? Hd Hcs]; subst. rewrite <- app_assoc.
-    destruct (run_chunk q d (concat (map render_chunk cs) ++ rest) acc Hq Hd) as (q1 & Hq1 & E1).
+    destruct (run_chunk cl q d (concat (map render_chunk cs) ++ rest) acc Hq Hd) as (q1 & Hq1 & E1).
     destruct (IH q1 rest (acc ++ [EBody d]) Hq1 Hcs) as (q2 & Hq2 & E2).
     exists q2. split; auto. rewrite E1, E2, <- app_assoc. reflexivity.
 Qed.
@@ -98,11 +98,11 @@ Definition last_chunk : bytes := [48; CR; LF; CR; LF].
 
 Lemma hex_zero : hex 0 = [48]. Proof. vm_compute. reflexivity. Qed.
 
-Lemma run_last_chunk q rest acc :
-  chunk_state q ->
-  exists p', boundary p' /\ run_bytes q (last_chunk ++ rest) acc = run_bytes p' rest (acc ++ [EComplete]).
+Lemma run_last_chunk cl q rest acc :
+  chunk_state cl q ->
+  exists p', boundaryc cl p' /\ run_bytes q (last_chunk ++ rest) acc = run_bytes p' rest (acc ++ [EComplete]).
 Proof.
-  intros (Hs & C1 & C2 & C3 & C4 & C5 & C6). unfold last_chunk. cbn [app].
+  intros (Hs & C1 & C2 & C3 & C4 & C5 & C6 & C7). unfold last_chunk. cbn [app].
   change (48 :: CR :: LF :: CR :: LF :: rest) with ([48] ++ CR :: LF :: CR :: LF :: rest).
   rewrite <- hex_zero, (run_size_line q 0 _ acc Hs) by (unfold LIM; lia).
   set (q1 := set_st SChunkSizeLF _).
@@ -116,7 +116,7 @@ Proof.
   assert (S3 : stepb q3 LF = Go_on (after (handle_message q3)) [EComplete]) by reflexivity.
   rewrite (run_step _ _ _ _ _ _ S3).
   eexists; split; [|reflexivity].
-  unfold boundary, handle_message, q3, q2, q1, after; cbn. rewrite C6. repeat split; auto.
+  unfold boundaryc, handle_message, q3, q2, q1, after; cbn. rewrite C6. destruct cl; repeat split; auto.
 Qed.
 
 (* ---------- end of the header block with Transfer-Encoding: chunked ---------- *)
@@ -130,10 +130,10 @@ Proof.
 Qed.
 Lemma canonical_te : canonical k_TE = k_TE. Proof. vm_compute. reflexivity. Qed.
 
-Lemma run_end_chunked p rest acc :
+Lemma run_end_chunked cl p rest acc :
   hdr_state p -> h_te p = [s_chunked] -> h_tr p = [] -> trailer p = [] ->
-  is_client p = false -> proto p = [] ->
-  exists q, chunk_state q /\
+  is_client p = cl -> proto p = [] ->
+  exists q, chunk_state cl q /\
     run_bytes p (CR :: LF :: rest) acc = run_bytes q rest (acc ++ [EContentLength (-1)%Z]).
 Proof.
   intros (Hs & Ht & Hk & Hv) H1 H3 H4 H6 H7.
